@@ -109,8 +109,13 @@ func (f *fn) intExpr(e ast.Expr) string {
 		}
 		fail(e, "identifier %s in integer expression", x.Name)
 	case *ast.SelectorExpr:
-		if src(x) == f.recv+".index" {
+		switch src(x) {
+		case f.recv + ".index":
 			return "index"
+		case "math.MaxInt", "math.MaxInt64": // Go int is 64 bit on the platforms csvq is built for
+			return "9223372036854775807"
+		case "math.MinInt", "math.MinInt64":
+			return "(-9223372036854775808)"
 		}
 		fail(e, "selector %s in integer expression", src(x))
 	case *ast.CallExpr:
@@ -235,6 +240,34 @@ func (f *fn) assign(s ast.Stmt) (string, string) {
 	return "", ""
 }
 
+// caseValue: the body of a case clause — one assignment, or an if / else-if / else chain of such
+// bodies that all assign the same field — as (field, Lean term).
+func (f *fn) caseValue(at ast.Node, stmts []ast.Stmt) (string, string) {
+	if len(stmts) != 1 {
+		fail(at, "case / branch body must be a single assignment or a single if-else chain")
+	}
+	if ifs, ok := stmts[0].(*ast.IfStmt); ok {
+		if ifs.Init != nil || ifs.Else == nil {
+			fail(ifs, "if in a case body needs an else (every path must assign the field)")
+		}
+		v1, e1 := f.caseValue(ifs, ifs.Body.List)
+		var v2, e2 string
+		switch el := ifs.Else.(type) {
+		case *ast.BlockStmt:
+			v2, e2 = f.caseValue(el, el.List)
+		case *ast.IfStmt:
+			v2, e2 = f.caseValue(el, []ast.Stmt{el})
+		default:
+			fail(ifs, "else form")
+		}
+		if v1 != v2 {
+			fail(ifs, "branches assign different fields")
+		}
+		return v1, "(if " + f.propExpr(ifs.Cond) + " then " + e1 + " else " + e2 + ")"
+	}
+	return f.assign(stmts[0])
+}
+
 func isMutexCall(recv string, e ast.Expr) bool {
 	s := src(e)
 	return s == recv+".mtx.Lock()" || s == recv+".mtx.Unlock()"
@@ -347,10 +380,7 @@ func (f *fn) compile(stmts []ast.Stmt, ind string) string {
 		def := ""
 		for _, cc0 := range x.Body.List {
 			cc := cc0.(*ast.CaseClause)
-			if len(cc.Body) != 1 {
-				fail(cc, "case body must be a single assignment")
-			}
-			v, e := f.assign(cc.Body[0])
+			v, e := f.caseValue(cc, cc.Body)
 			if target == "" {
 				target = v
 			} else if target != v {
